@@ -59,6 +59,16 @@ def run (op : String) (args impl : List String) : Outcome :=
     { model, spec, same := some same,
       tags := ["req"] ++ (match r with | .getOk _ _ => ["get", "nt"] | .post _ => ["post", "nt"] | .bad _ => ["bad"] | .unauthorized => ["unauthorized", "nt"]) ++
         (if cs.length > 3 then ["chunked"] else []) ++ (if !k.isEmpty then ["key"] else []) }
+  | "seq", [_key, reqs] =>
+    -- several requests against one server object: the implementation's answer to each, next to its
+    -- answer to the same request alone (a server that has seen nothing else)
+    let pairs := ((" ".intercalate impl).splitOn ";").map (·.splitOn "=")
+    let bad := pairs.zipIdx.find? fun (p, _) => match p with | [a, b] => a != b | _ => true
+    { model := " ".intercalate impl, same := some true,
+      spec := match bad with
+        | some (p, k) => specFail s!"[C16] request {k + 1} of a session was answered {p.headD "?"} but alone it is answered {p.getD 1 "?"}: a rejected or incomplete request had a side effect on a later one"
+        | none => if pairs.length != (reqs.splitOn "@").length then specFail "[C16] a request of the session got no answer" else specOk,
+      tags := ["seq", "nt"] }
   | _, _ => { model := "bad-op" }
 
 end Driver.Http
